@@ -10,7 +10,7 @@ TRUSTED_COMMON = [
 from engproj import compare_lines
 
 def eng(keys):
-    return lambda case, impl, model: compare_lines(impl, model, keys, long_lived=case.startswith('mode=long'), no_lookup_log=' res=db' in case,
+    return lambda case, impl, model: compare_lines(impl, model, keys, long_lived=case.startswith('mode=long') or case.startswith('mode=lp'), no_lookup_log=' res=db' in case,
                                                no_call_log=' res=db' in case and re.search(r' opt=\S*static', case) is not None)
 
 ENGINE_TRUSTED = [
